@@ -77,20 +77,30 @@ theorem doSuspends_steps (cfg : Cfg) : ∀ (l : List Nat) (w : Store) (p : Pool)
       · rename_i hs
         exact (suspend_steps hs).trans (ih _ _ _ _ h)
 
-theorem suspTickAll_steps : ∀ (l : List Ctr) (w : Store) (p : Pool) (w' : Store) (p' : Pool),
-    suspTickAll w p l = .ok (w', p') → Steps w w' := by
+theorem suspTickList_steps : ∀ (l : List Ctr) (w : Store) (w' : Store) (l' : List Ctr),
+    suspTickList w l = .ok (w', l') → Steps w w' := by
   intro l
   induction l with
-  | nil => intro w p w' p' h; simp [suspTickAll] at h; rw [h.1]; exact .refl _
+  | nil => intro w w' l' h; simp [suspTickList] at h; rw [h.1]; exact .refl _
   | cons c cs ih =>
-    intro w p w' p' h
-    unfold suspTickAll at h
+    intro w w' l' h
+    unfold suspTickList at h
     split at h
     · cases h
     · rename_i hs
       split at h
-      · exact (suspendTick_steps hs).trans (ih _ _ _ _ h)
-      · exact (suspendTick_steps hs).trans (ih _ _ _ _ h)
+      · cases h
+      · rename_i hr
+        rw [← ok_fst h]
+        exact (suspendTick_steps hs).trans (ih _ _ _ hr)
+
+theorem suspTickAll_steps {w w' : Store} {p p' : Pool} (h : suspTickAll w p = .ok (w', p')) : Steps w w' := by
+  unfold suspTickAll at h
+  split at h
+  · cases h
+  · rename_i hl
+    rw [← ok_fst h]
+    exact suspTickList_steps _ _ _ _ hl
 
 theorem tickAll_steps (cfg : Cfg) : ∀ (l : List Ctr) (w : Store) (cons : Int) (w' : Store) (l' : List Ctr) (cons' : Int),
     tickAll cfg w l cons = .ok (w', l', cons') → Steps w w' := by
@@ -173,7 +183,7 @@ theorem poolRun_steps {cfg : Cfg} {w w' : Store} {p p' : Pool} {res : List Res}
       · cases h
       · rename_i w5 p5 h5
         rw [← ok_fst h]
-        exact ((suspTickAll_steps _ _ _ _ _ h3).trans (tickAll_steps _ _ _ _ _ _ _ h4)).trans (oomKiller_steps h5)
+        exact ((suspTickAll_steps h3).trans (tickAll_steps _ _ _ _ _ _ _ h4)).trans (oomKiller_steps h5)
 
 end Eudoxia
 
